@@ -348,6 +348,10 @@ func runC12(r *Run) {
 			"the flash cookie value is the raw MessagePack encoding (NUL, ';', ',', CR/LF and bytes ≥ 0x80 are possible): e.g. With(\"k\",\"v;x, y\") or a message level of 10 produces a Set-Cookie line that standard parsers drop or split, so the messages do not survive a real HTTP exchange")
 	})
 
+	r.rule("R8", "old input is kept as submitted: WithInput hands the binders the map it collects the input in, not a pointer to it (a pointer changes the binder's answer to `may this value be split at commas`) (E8, type-level)", func() {
+		bindMapByValueRule(r, "", 2)
+	})
+
 	r.rule("R7", "flash messages and old input never overwrite each other (E1)", func() {
 		f := r.Fn("", "(*Redirect).With")
 		// the in-place override stores into an element of r.messages: reachable only past `!isOldInput`
